@@ -153,7 +153,7 @@ var c09NearMiss = []string{" plain", " see @immutable and @constructor New", " @
 // (keyword mid-sentence, other letter case, prefix of a longer word, blank after @): no annotation is read and no
 // analyzer reports anything, under symbolic configuration.
 func ZZC09Corpus() {
-	names := []string{"annT", "annN", "ctor", "mut", "annH", "annF", "annM", "annFix", "annFixM", "annT2", "annG", "ctor2"}
+	names := []string{"annT", "annN", "ctor", "mut", "annH", "annF", "annM", "annFix", "annFixM", "annT2", "annG", "ctor2", "uctor"}
 	holes := []nd.Hole{{"op", "+="}, {"inc", "++"}, {"fname", "prod.go"}}
 	// two independent near-miss choices, assigned alternately to the comment sites
 	nmA := nd.EnumPad("nm_a", c09NearMiss...)
